@@ -1,4 +1,6 @@
 """Scenario generators, second group: object model, metadata, data path."""
+import os
+
 import numpy as np
 
 from build import BOOL, DICT, DT, EN, F, I, L, NOJ, R, S, SETUP, Prog
@@ -223,6 +225,45 @@ def gen_C04(tier, seed):
         p.write(1, valid=False, either=True)
         progs.append(p.build())
     progs += attr_programs('C04')
+    return progs
+
+
+def repo_fixture_programs(pid, rng, rows=5):
+    """The repository's own fixture builders (src/tests/dlis_files_for_testing), executed under the recorder."""
+    progs = []
+
+    def data_arrays(p, keys2d, rows=rows):
+        m = {}
+        for k in ('contents/time', '/contents/time', 'contents/depth', '/contents/depth', 'contents/rpm'):
+            m[k] = p.array(np.arange(rows, dtype='float64') * (0.5 if 'time' in k else 1.0) + (100 if 'depth' in k else 0), aid='d' + str(len(m)))
+        for k in keys2d:
+            m[k] = p.array(rand_array(rng, 'float32', rows, 128), aid='d' + str(len(m)))
+        return m
+
+    for func, mod in (('write_short_dlis', 'short_dlis'), ('write_time_based_dlis', 'time_based_dlis'), ('write_depth_based_dlis', 'depth_based_dlis')):
+        p = Prog(f'{pid}-repo-{mod}', {'kind': 'repofixture', 'module': mod})
+        m = data_arrays(p, ['contents/image0', 'contents/image1', '/contents/image1', 'contents/image2', 'image1', 'image2', 'amplitude'])
+        p.steps.append({'op': 'script', 'module': f'tests.dlis_files_for_testing.{mod}', 'func': func,
+                        'args': [{'t': 'path', 'v': 'out.dlis'}, {'t': 'arrays', 'v': m}]})
+        progs.append(p.build())
+    p = Prog(f'{pid}-repo-dlis_from_dict', {'kind': 'repofixture', 'module': 'dlis_from_dict'})
+    m = {'depth': p.array(np.arange(6, dtype='float64')), 'rpm': p.array(rand_array(rng, 'int32', 6)), 'amp': p.array(rand_array(rng, 'float32', 6, 4))}
+    p.steps.append({'op': 'script', 'module': 'tests.dlis_files_for_testing.dlis_from_dict', 'func': 'write_dlis_from_dict',
+                    'args': [{'t': 'path', 'v': 'out.dlis'}, {'t': 'arrays', 'v': m}]})
+    progs.append(p.build())
+    p = Prog(f'{pid}-repo-double_frame', {'kind': 'repofixture', 'module': 'double_frame_dlis'})
+    m1 = {'depth1': p.array(np.arange(4, dtype='float64')), 'a1': p.array(rand_array(rng, 'float64', 4, 3))}
+    m2 = {'depth2': p.array(np.arange(7, dtype='float32')), 'b2': p.array(rand_array(rng, 'uint16', 7))}
+    p.steps.append({'op': 'script', 'module': 'tests.dlis_files_for_testing.double_frame_dlis', 'func': 'write_double_frame_dlis',
+                    'args': [{'t': 'path', 'v': 'out.dlis'}, {'t': 'arrays', 'v': m1}, {'t': 'arrays', 'v': m2}]})
+    progs.append(p.build())
+    import lib
+    for script in ('create_synth_dlis.py', 'create_dlis_equivalent_frames.py'):
+        p = Prog(f'{pid}-repo-example-{script[:-3]}', {'kind': 'repoexample', 'module': script})
+        p.steps.append({'op': 'script', 'run_path': os.path.join(lib.REPO, 'examples', script), 'syspath': [os.path.join(lib.REPO, 'examples')]})
+        q = p.build()
+        q['np_seed'] = 12345
+        progs.append(q)
     return progs
 
 
@@ -591,6 +632,15 @@ def gen_C18(tier, seed):
         progs.append(p.build())
     return progs
 
+
+def _with_repo(pid, gen):
+    def g(tier, seed):
+        return gen(tier, seed) + repo_fixture_programs(pid, rng_for(pid + '-repo', tier, seed), rows=5 if tier == 'quick' else 12)
+    return g
+
+
+for _pid in ('C03', 'C04', 'C05', 'C07', 'C08', 'C09'):
+    globals()['gen_' + _pid] = _with_repo(_pid, globals()['gen_' + _pid])
 
 GENERATORS2 = {'C03': gen_C03, 'C04': gen_C04, 'C05': gen_C05, 'C07': gen_C07, 'C08': gen_C08, 'C09': gen_C09, 'C11': gen_C11,
                'C13': gen_C13, 'C18': gen_C18, 'C19': gen_C19}
